@@ -655,7 +655,7 @@ pub fn gen_wrep(rng: &mut Rng) -> RawCase {
     let iv = ["I%", "J&", "S!", "D#", "A1%(1)", "A1%(I%)", "A1%(4)", "P.X", "P.Y", "PA(1).X", "PA(I%).Y", "GS%", "D1#(-1)", "P.Z", "A1%(Fn1%(1))", "PA(Fn1%(1)).X", "A1%(Undef1(1))", "PA(Undef2(2)).Y", "A1%(1, 2)", "D1#(0, 0)", "A1%(LEN(T$))"];
     let sv = ["T$", "A2$(1, 2)", "A2$(I%, 0)", "P.N", "PA(2).N", "FS", "GA$(1)", "A2$(3, 3)", "A2$(1)", "A2$(Fn1%(0), 1)", "PA(Fn1%(1)).N"];
     let ie = ["0", "1", "-1", "3", "4", "32767", "-32768", "70000", "2.5", "-0.5", "100000", "C1", "CF", "I%", "J&", "S!", "D#", "A1%(2)", "P.X", "LEN(T$)", "UBOUND(A1%)", "LBOUND(D1#)", "UBOUND(A2$, 2)", "I% MOD 3", "I% AND 5", "NOT I%", "I% OR J&", "-I%", "(I% + 1) * 2", "VAL(T$)", "INSTR(T$, \"a\")", "Fn1%(I%)", "Fn2#(S!, T$)", "VARPTR(I%)", "VARSEG(A1%(1))", "PEEK(VARPTR(I%))", "ERR", "Fn1%(A1%(Fn1%(1)))", "Fn1%(PA(Fn1%(1)).X)", "Fn4%(A1%(Fn1%(1)), I%)", "A1%(Fn1%(0) + 1)", "A1%(2, 1)", "LEN(A2$(1, Fn1%(1)))", "Undef3(I%)"];
-    let se = ["\"\"", "\"a\"", "\"hello world\"", "T$", "CS$", "P.N", "FS", "STR$(I%)", "CHR$(65)", "LEFT$(T$, I%)", "MID$(T$, I%, 2)", "RIGHT$(T$, 1)", "UCASE$(T$) + LCASE$(T$)", "SPACE$(I%)", "STRING$(3, \"x\")", "LTRIM$(RTRIM$(T$))", "MKD$(D#)", "Fn3$(T$)", "ENVIRON$(\"HOME\")"];
+    let se = ["\"\"", "\"a\"", "\"hello world\"", "T$", "CS$", "P.N", "FS", "STR$(I%)", "CHR$(65)", "LEFT$(T$, I%)", "MID$(T$, I%, 2)", "RIGHT$(T$, 1)", "UCASE$(T$) + LCASE$(T$)", "SPACE$(I%)", "STRING$(3, \"x\")", "LTRIM$(RTRIM$(T$))", "MKD$(D#)", "Fn3$(T$)", "ENVIRON$(\"HOME\")", "STRING$(5, 205)", "CHR$(200) + CHR$(201)", "LEFT$(STRING$(4, 205), 3)", "RIGHT$(STRING$(3, 200), 1)", "MID$(STRING$(4, 205), 2, 1)", "LEFT$(CHR$(200) + T$, 1)", "UCASE$(CHR$(228))", "LTRIM$(CHR$(160) + T$)"];
     // a GOTO into a block is legal for the checker; what the block's end finds on the
     // stacks is then not what its own start pushed
     let jumps = rng.chance(1, 6);
@@ -682,7 +682,17 @@ pub fn gen_wrep(rng: &mut Rng) -> RawCase {
             18 => format!("SELECT CASE {}\nCASE \"a\", \"b\"\nPRINT 1\nCASE ELSE\nPRINT 2\nEND SELECT", s1),
             19 => format!("WHILE I% < 3\nI% = I% + 1\n{} = {}\nWEND", v, i1),
             20 => format!("Sb1 {}, {}, ({})", rng.pick(&["I%", "A1%(1)", "P.X", "GS%", "A1%(I%)", "PA(1).X"]), rng.pick(&["T$", "A2$(1, 2)", "GA$(1)", "A2$(I%, 0)"]), i1),
-            21 => format!("Sb2 A1%(), P, {}", i1),
+            21 => {
+                // a record by reference, or by value (in parentheses: a record of another
+                // type is then for the checker to refuse)
+                let rec = if rng.chance(1, 3) {
+                    let other = has_ln && rng.chance(1, 8);
+                    *rng.pick(&["(P)", "(PA(1))", "PA(2)", if other { "(L1)" } else { "(P)" }, if has_ln { "L1.A" } else { "P" }, if has_ln { "(L1.B)" } else { "(P)" }])
+                } else {
+                    "P"
+                };
+                format!("Sb2 A1%(), {}, {}", rec, i1)
+            }
             22 => format!("Sb1 ({}), ({}), ({})", rng.pick(&["I%", "P.X", "3", "70000", "-1"]), w, i2),
             23 => "Sb3".to_string(),
             24 => format!("READ {}", rng.pick(&["I%", "T$", "D#", "P.X", "A1%(2)", "FS"])),
@@ -691,7 +701,7 @@ pub fn gen_wrep(rng: &mut Rng) -> RawCase {
             27 => format!("DEF SEG = VARSEG({})\nPRINT PEEK(VARPTR({}))\nDEF SEG", rng.pick(&["A1%(1)", "I%", "A1%(3)"]), rng.pick(&["A1%(1)", "I%", "A1%(2)"])),
             28 => format!("P = PA({})", rng.pick(&["1", "2", "I%", "3"])),
             29 => format!("PA({}) = P", rng.pick(&["1", "2", "I%", "0"])),
-            30 => format!("LSET {} = {}", rng.pick(&["T$", "FS"]), s1),
+            30 => format!("LSET {} = {}", rng.pick(&["T$", "T$", "T$", "T$", "T$", "FS"]), s1),
             31 => format!("GOSUB Gs1"),
             32 => format!("PRINT USING {}; {}; {}", rng.pick(&["\"##.#\"", "\"\\ \\\"", "\"!\"", "\"#\"", "T$"]), i1, s1),
             33 => format!("{} = Fn1%({}) + Fn2#({}, {})", v, i1, i2, s1),
@@ -699,7 +709,7 @@ pub fn gen_wrep(rng: &mut Rng) -> RawCase {
             35 => format!("{} = CVD(MKD$({}))", v, i1),
             36 => {
                 // whole arrays where a value is expected: for the checker to refuse
-                if rng.chance(1, 6) {
+                if rng.chance(1, 12) {
                     format!("PRINT {}; {}", i1, rng.pick(&["A1%", "A2$", "PA", "D1#"]))
                 } else {
                     format!("PRINT {}; {}", i1, s1)
